@@ -83,6 +83,9 @@ pub struct GenCfg {
     pub max_statements: usize,
     /// percent of statements that are assignments
     pub assign_pct: u64,
+    /// allow assignments / sub-chains nested inside operands (off for C04's single-statement
+    /// programs, whose outcome must not depend on evaluation order)
+    pub nested_statements: bool,
 }
 
 pub struct Gen<'a> {
@@ -90,6 +93,10 @@ pub struct Gen<'a> {
     pub cfg: GenCfg,
     /// types of the variables known to be bound at this point of the (left-to-right) generation
     pub tenv: BTreeMap<String, Ty>,
+    /// variable names programs may use
+    pub names: Vec<String>,
+    /// sentinel behaviour -> names of registered functions that have it
+    pub fn_names: BTreeMap<String, Vec<String>>,
 }
 
 impl<'a> Gen<'a> {
@@ -99,7 +106,35 @@ impl<'a> Gen<'a> {
             .iter()
             .map(|(n, v)| (n.clone(), ty_of(v)))
             .collect();
-        Gen { rng, cfg, tenv }
+        let mut fn_names: BTreeMap<String, Vec<String>> = BTreeMap::new();
+        for f in &setup.fns {
+            fn_names.entry(f.clone()).or_default().push(f.clone());
+        }
+        Gen {
+            rng,
+            cfg,
+            tenv,
+            names: VAR_NAMES.iter().map(|s| s.to_string()).collect(),
+            fn_names,
+        }
+    }
+
+    /// A call of a registered function with sentinel behaviour `behaviour`; if none is registered,
+    /// mostly the argument alone for `f` / a literal of the result type otherwise (and sometimes
+    /// the call anyway, which then fails with FunctionIdentifierNotFound).
+    fn call_behaviour(&mut self, behaviour: &str, arg: Option<Expr>, result: Ty) -> Expr {
+        let names = self.fn_names.get(behaviour).cloned().unwrap_or_default();
+        if names.is_empty() {
+            if self.rng.percent(90) {
+                return match (behaviour, arg) {
+                    ("f", Some(a)) => a,
+                    _ => self.lit(result),
+                };
+            }
+            return Expr::Call(behaviour.to_string(), arg.map(Box::new));
+        }
+        let n = self.rng.pick(&names).clone();
+        Expr::Call(n, arg.map(Box::new))
     }
 
     /// A whole program: a statement chain or a single expression.
@@ -127,7 +162,8 @@ impl<'a> Gen<'a> {
     }
 
     fn name(&mut self) -> String {
-        self.rng.pick(&VAR_NAMES).to_string()
+        let names = self.names.clone();
+        self.rng.pick(&names).clone()
     }
 
     fn other_ty(&mut self, ty: Ty) -> Ty {
@@ -292,7 +328,7 @@ impl<'a> Gen<'a> {
             return Expr::Read(self.name());
         }
         if ty == Ty::Empty && self.rng.percent(40) {
-            return Expr::Call("f".to_string(), None);
+            return self.call_behaviour("f", None, Ty::Empty);
         }
         self.lit(ty)
     }
@@ -342,13 +378,13 @@ impl<'a> Gen<'a> {
         let b = budget - 1;
         // productions common to all types
         let common = self.rng.below(100);
-        if common < 8 {
+        if common < 8 && self.cfg.nested_statements {
             return self.chain_ending_in(ty, budget, d);
         }
         if common < 16 {
             // identity function keeps the type
             let arg = self.sub(ty, b, d);
-            return Expr::Call("f".to_string(), Some(arg));
+            return self.call_behaviour("f", Some(*arg), ty);
         }
         if common < 20 && self.cfg.builtins {
             // if(cond, x, y): both branches are evaluated
@@ -373,7 +409,7 @@ impl<'a> Gen<'a> {
                 6 | 7 => {
                     let t = self.any_ty();
                     let a = self.expr(t, b, d);
-                    self.call("g", a)
+                    self.call_behaviour("g", Some(a), Ty::Int)
                 },
                 8 if self.cfg.builtins => {
                     let t = if self.rng.percent(50) { Ty::Str } else { Ty::Tuple };
@@ -390,7 +426,7 @@ impl<'a> Gen<'a> {
                 _ => {
                     let t = self.any_ty();
                     let a = self.expr(t, b, d);
-                    self.call("g", a)
+                    self.call_behaviour("g", Some(a), Ty::Int)
                 },
             },
             Ty::Float => match self.rng.below(4) {
@@ -452,7 +488,7 @@ impl<'a> Gen<'a> {
                 _ => {
                     let t = self.any_ty();
                     let a = self.expr(t, b, d);
-                    self.call("h", a)
+                    self.call_behaviour("h", Some(a), Ty::Bool)
                 },
             },
             Ty::Str => match self.rng.below(3) {
@@ -488,11 +524,12 @@ impl<'a> Gen<'a> {
                 _ => {
                     let t = self.any_ty();
                     let a = self.expr(t, b, d);
-                    self.call("k", a)
+                    self.call_behaviour("k", Some(a), Ty::Tuple)
                 },
             },
             Ty::Empty => match self.rng.below(4) {
-                0 => Expr::Call("f".to_string(), None),
+                _ if !self.cfg.nested_statements => self.call_behaviour("f", None, Ty::Empty),
+                0 => self.call_behaviour("f", None, Ty::Empty),
                 _ => self.assignment(budget, depth),
             },
         }
@@ -539,5 +576,6 @@ pub fn gen_cfg(rng: &mut Rng, setup: &Setup) -> GenCfg {
         spiny,
         max_statements: *rng.pick(&[1usize, 2, 3, 5]),
         assign_pct: *rng.pick(&[30, 50, 70]),
+        nested_statements: true,
     }
 }
